@@ -32,26 +32,40 @@ REQUIRED_COUNTERS = ['overhang_present', 'no_overhang', 'party_outside_tier', 'p
                      'allow', 'level', 'd_hondt', 'sainte_lague', 'hare_lr', 'tie_in_baseline', 'multistage_depth2', 'default_overall', 'apportioned', 'intermediate_tie', 'alabama_lr', 'cty_party_name_clash', 'clash_str', 'clash_int0',
                      'clash_empty0', 'all_zero_votes',
                      'd_hondt_mod', 'sainte_lague_mod', 'coef_decimal', 'coef_default', 'coef_float', 'coef_fraction',
-                     'votes_all_fraction', 'votes_fraction', 'votes_ge_1e18', 'big_votes_tie', 'fraction_votes_tie',
+                     'votes_all_fraction', 'votes_fraction', 'votes_ge_1e18', 'big_votes_tie', 'fraction_votes_tie', 'cross_party_tie_big', 'cross_party_tie_fraction',
                      'shared_evaluator', 'separate_evaluators', 'two_elections', 'second_after_refusal',
                      'other_configuration_first', 'zero_direct_and_seatless_voter', 'two_zero_vote_parties',
                      'house_0', 'house_1', 'house_below_direct', 'many_wasted_votes', 'multistage_3stages',
                      'multistage_3stages_depth2', 'allocator_default', 'apportioner_int']
-RULE = ('second-vote dicts over 2-6 parties (tie-forcing small sets, zero-vote parties, up to 10^12, some Fractions); '
-        'baseline house sizes 1..30; direct-seat maps with sum <= house size (none, below the share, skewed above it, '
-        'random; parties with direct seats but no proportional seat; parties without a votes entry); proportional '
-        "evaluator in {HighestAverages('d_hondt'), HighestAverages('sainte_lague'), LargestRemainder('hare')}; calculators "
-        'AllowOverhang, LevelOverhang (flat) and LevelOverhangByConstituency (2-3 constituencies; fixed apportionment '
-        '0..8 or an apportioning evaluator; overall evaluator given or the default), alone (overhang_calc) and inside AdjustedSeatCount (adjusted_eval; distributing '
-        'evaluator = the same or another of the three, ByParty(overall, allocator) for the by-constituency variant), bare '
-        'or as second stage of MultistageDistributor([direct-seat stage, AdjustedSeatCount]) with depth 1 / 2; levelling '
-        'bounded by 200 evaluator calls on both sides. Naming: a quarter of all cases under the falsy-name modes int0 / empty0; '
-        'about a third of the by-constituency cases with a constituency that is the same object as a party (constituencies '
-        "named 'p0','p1',…; int ids for both; '' for both). A few all-zero vote dicts."
-        ' Thorough tier adds all vote vectors {0..3}^2 (n<=5) and {0..2}^3 '
-        '(n<=3) x all direct maps (entries <= 2, one party without votes) x 3 evaluators x {allow, level}. Non-trivial = a '
-        'non-error result with at least one direct seat; distinct by canonical request.')
+RULE = ('second-vote dicts over 2-6 parties: tie-forcing small sets, zero-vote parties (also two or more, also all), ints up to '
+        '10^30 incl. 2^53+-1 and near ties (v, v+1), Fractions, every value as a Fraction object (12 %), exact ties at the '
+        'levelling boundary scaled to 10^18 / 10^30 / thirds / sevenths and between parties with different votes a*K, b*K; '
+        'baseline house sizes 0..30 and houses below the direct seats (while the parties outside the tier fit); direct-seat '
+        'maps (none, below the share, skewed above it, random; parties with direct seats but no proportional seat, without '
+        'a votes entry, with zero votes next to voters without any seat; 5-6 parties with a quarter of the votes wasted); '
+        "proportional evaluator in {HighestAverages('d_hondt' | 'sainte_lague' | modified_first_coef(d_hondt, 3/2) | "
+        "modified_first_coef(sainte_lague, 7/5) with the coefficient as Fraction / Decimal / library default / dyadic "
+        "float), LargestRemainder('hare')}; calculators AllowOverhang, LevelOverhang (flat) and "
+        'LevelOverhangByConstituency (2-3 constituencies; apportionment dict 0..8, int, or an apportioning evaluator; '
+        'overall evaluator given or the default), alone (overhang_calc) and inside AdjustedSeatCount (adjusted_eval; '
+        'calculator and distributor sharing ONE evaluator object or separate ones; distributing evaluator = the same or '
+        'another; ByParty(overall, allocator | None) for the by-constituency variant), bare or as last stage of '
+        'MultistageDistributor with one or two fixed-outcome stages before it (depth 1 / 2); adjusted_seq: the same '
+        'objects on 2-3 elections in a row (larger before smaller, after a refused election, after a differently configured '
+        'evaluator); levelling bounded by 200 evaluator calls on both sides. Naming: a quarter of all cases under int0 / '
+        'empty0 / person; a third of the by-constituency cases with a constituency that is the same object as a party. '
+        'Thorough tier adds all vote vectors {0..3}^2 (n<=5) and {0..2}^3 (n<=3) x all direct maps (entries <= 2, one party '
+        'without votes) x 3 evaluators x {allow, level}. Non-trivial = a non-error result with at least one direct seat; '
+        'distinct by canonical request.')
 NOT_VERIFIED = [
+    'the clause "final totals = proportional distribution of the enlarged house" is stated (oracle clause '
+    'final_not_proportional, theorems level_final_is_proportional / _lr) for seat holders WITH votes: among parties nobody '
+    'voted for all quotients are 0 and whether two of them are seated in one batch or reported as a Tie depends on where '
+    'the highest-averages run starts (from scratch vs. from the direct seats), e.g. D\'Hondt {A:0, C:0}, 2 seats, A holds one '
+    'directly: from scratch {A:1, C:1}, continued {Tie(A,C):1}',
+    'the oracle computes every proportional distribution itself (textbook divisor sequences and Hare quota with exact '
+    'Fractions); votelib\'s evaluators are asked only for the KIND of refusal (house 0, nobody has votes) and for the '
+    'degenerate all-zero-votes outcome',
     'HighestAverages is the C01 model (unordered pool instead of the sorted list with bisect re-insertion); Tie keys are '
     'compared after sorting their members (frozenset equality)',
     "LargestRemainder('hare') is a minimal hand model (Hare quota, accept_equal, on_overaward='error', no max_seats; the "
@@ -429,22 +443,41 @@ def _textbook(evname, votes, h):
             for r, i in rem[:left]:
                 out[i] = out.get(i, 0) + 1
         return out
-    d = _divisor(evname)
-    quots = sorted(((v / d(k), i, k) for i, v in pos.items() for k in range(h + 1)), key=lambda t: -t[0])
+    quots = _quot_table(evname, tuple(sorted(pos.items())), h + 1)
     cut = quots[h - 1][0]
-    above = [t for t in quots if t[0] > cut]
-    level = [t for t in quots if t[0] == cut]
+    a = h - 1
+    while a > 0 and quots[a - 1][0] == cut:
+        a -= 1
+    b = h - 1
+    while b + 1 < len(quots) and quots[b + 1][0] == cut:
+        b += 1
     out = {}
-    for _, i, _ in above:
+    for _, i, _ in quots[:a]:
         out[i] = out.get(i, 0) + 1
-    if len(above) + len(level) <= h or len(quots) == h:
-        for _, i, _ in level:
+    if b + 1 <= h:
+        for _, i, _ in quots[a:b + 1]:
             out[i] = out.get(i, 0) + 1
-        if sum(out.values()) != h:
-            return None
         return out
-    out[('tie',) + tuple(sorted({i for _, i, _ in level}))] = h - len(above)
+    out[('tie',) + tuple(sorted({i for _, i, _ in quots[a:b + 1]}))] = h - a
     return out
+
+
+_QT = {}
+
+
+def _quot_table(evname, items, need):
+    """all quotients v/d(k), k < K, largest first (K >= need; the h largest of them are the h largest overall as long as
+    h < K because every party's quotients decrease in k)"""
+    key = (evname, items)
+    t = _QT.get(key)
+    if t is None or t[0] < need:
+        K = max(need, 64 if t is None else 2 * t[0])
+        d = _divisor(evname)
+        tab = sorted(((v / d(k), i, k) for i, v in items for k in range(K)), key=lambda x: -x[0])
+        if len(_QT) > 64:
+            _QT.clear()
+        t = _QT[key] = (K, tab)
+    return t[1]
 
 
 def _bb(evname, votes, h, prev=None, names=None):
@@ -1147,6 +1180,43 @@ def _directed_scaled_ties(rng, count):
     return out
 
 
+def _directed_cross_ties(rng, count):
+    """exact ties between parties with DIFFERENT votes at magnitudes where floating point cannot represent them:
+    votes a*K and b*K (K odd, about 2^53 / 10^18 / 10^30, or a fraction of it): the a-th quotient of the first equals the
+    b-th quotient of the second exactly (D'Hondt: K; Sainte-Lague with odd multiples).  Kept when such a tie is reported
+    at the baseline or on the way up."""
+    out = []
+    tries = 0
+    while len(out) < count and tries < 80 * count:
+        tries += 1
+        ev = rng.choice(HA_EVALS)
+        K = rng.choice([2 ** 53 + 1, 10 ** 18 + 1, 10 ** 30 + 7, Fraction(10 ** 18 + 1, 3), Fraction(2 ** 61 - 1, 7)])
+        if ev.startswith('sainte_lague'):
+            mult = rng.sample([3, 5, 7, 9, 15], 2)
+        else:
+            mult = rng.sample([2, 3, 4, 5, 6], 2)
+        vs = [mult[0] * K, mult[1] * K] + [rng.randint(1, 4) * K + rng.randint(1, 10 ** 6) for _ in range(rng.randint(0, 2))]
+        n = rng.randint(2, 12)
+        try:
+            base = _bb(ev, {NAMES.n(i): v for i, v in enumerate(vs)}, n)
+        except _Refused:
+            continue
+        d = [0] * len(vs)
+        j = rng.randrange(2)
+        d[j] = base.get(j, 0) + rng.randint(1, 2)
+        if sum(d) > n:
+            continue
+        c = _level_case(rng.choice(['overhang_calc', 'adjusted_eval']), ev, vs, n, d,
+                        wrap=rng.choice(['none', 'multistage']), tags=['directed'])
+        exp = _expected_level(ev, _votes(c), n, {i: k for i, k in c['prev']}, FUEL)
+        if exp['mid_tie'] or any(isinstance(k, tuple) for k in base):
+            c['_tags'].append('cross_party_tie_big')
+            if isinstance(K, Fraction):
+                c['_tags'].append('cross_party_tie_fraction')
+            out.append(_finish_flat(rng, c, wrap=c.get('wrap')))
+    return out
+
+
 def _directed_zero_and_seatless(rng, count):
     """in ONE case: a party with direct seats but zero votes (sometimes two zero-vote parties), and a party with votes
     but neither a proportional nor a direct seat"""
@@ -1223,33 +1293,34 @@ def _directed_small_houses(rng, count):
 
 
 def _directed_wasted_votes(rng, count):
-    """5-6 parties, three or more of them with votes but without any seat (wasted votes), overhang among the others"""
+    """5-6 parties, three or more of them with votes but without any seat at the baseline (wasted votes that still count
+    in the total), the largest party holding (nearly) the whole baseline house directly: its floor m is high and every
+    small party stays below a 1/m-th of its votes, so bounds computed from shares of ALL votes are off by seats"""
     out = []
     tries = 0
-    while len(out) < count and tries < 60 * count:
+    while len(out) < count and tries < 80 * count:
         tries += 1
         ev = rng.choice(ALL_EVALS)
         m = rng.choice([5, 6, 6])
-        big = [rng.randint(3000, 6000), rng.randint(2000, 5000)] + ([rng.randint(800, 2000)] if m == 6 else [])
-        tiny = [rng.randint(20, 260) for _ in range(m - len(big))]
-        vs = big + tiny
-        n = rng.randint(4, 14)
+        floor_ = rng.randint(5, 9)
+        v0 = rng.randint(3500, 5000)
+        vs = [v0, rng.randint(1500, 3000)] + [rng.randint(max(1, v0 // (2 * floor_)), v0 // (floor_ + 1)) for _ in range(m - 2)]
+        n = floor_ + rng.randint(0, 2)
         try:
             base = _bb(ev, {NAMES.n(i): v for i, v in enumerate(vs)}, n)
         except _Refused:
             continue
-        if sum(1 for i in range(m) if vs[i] > 0 and i not in base) < 3 or any(isinstance(k, tuple) for k in base):
+        if sum(1 for i in range(m) if i not in base) < 3 or any(isinstance(k, tuple) for k in base):
             continue
         d = [0] * m
-        j = rng.randrange(len(big))
-        d[j] = base.get(j, 0) + rng.randint(1, 3)
-        if rng.random() < 0.4:
-            d[rng.randrange(len(big), m)] = 1           # a seatless voter with a direct seat (outside the tier)
-        if sum(d) > n:
+        d[0] = floor_
+        if d[0] <= base.get(0, 0):
             continue
+        if sum(d) < n and rng.random() < 0.3:
+            d[rng.randrange(2, m)] = 1                  # a seatless voter with a direct seat (outside the tier)
         order = list(range(m))
         rng.shuffle(order)
-        kind = rng.choice(['allow', 'level', 'level'])
+        kind = rng.choice(['allow', 'level', 'level', 'level'])
         c = {'op': rng.choice(['overhang_calc', 'adjusted_eval']), 'kind': kind, 'evaluator': ev,
              'votes': [[i, num_str(vs[i])] for i in order], 'n': n, 'prev': [[i, d[i]] for i in order if d[i]],
              'max': [], 'fuel': FUEL, '_tags': [kind, ev, 'directed', 'many_wasted_votes']}
@@ -1292,13 +1363,13 @@ def _directed_sequences(rng, count):
 
 
 def generate(rng, tier):
-    N = 2000 if tier == 'quick' else 40000
+    N = 2000 if tier == 'quick' else 30000
     cases = []
     for _ in range(N):
         cases.append(_flat_case(rng))
     for _ in range(N // 6):
         cases.append(_cty_case(rng))
-    per = 15 if tier == 'quick' else 300
+    per = 15 if tier == 'quick' else 240
     for _ in range(per):
         for ev in EVALS:
             cases.append(_flat_case(rng, kind='level', ev=ev, dmode='skew', vkind='skew'))          # iterations >= 2
@@ -1323,11 +1394,12 @@ def generate(rng, tier):
             cases.append(c0)
     cases += _directed_intermediate_tie(rng, 30 if tier == 'quick' else 300)
     cases += _directed_alabama(rng, 30 if tier == 'quick' else 300)
-    k = 36 if tier == 'quick' else 360
+    k = 36 if tier == 'quick' else 300
     cases += _directed_scaled_ties(rng, k)
+    cases += _directed_cross_ties(rng, 2 * k)
     cases += _directed_zero_and_seatless(rng, k)
     cases += _directed_small_houses(rng, k)
-    cases += _directed_wasted_votes(rng, k)
+    cases += _directed_wasted_votes(rng, k + 12)
     cases += _directed_sequences(rng, k)
     for ev in ['d_hondt_mod', 'sainte_lague_mod']:          # directed share for the modified first coefficient
         for _ in range(k // 2):
@@ -1467,6 +1539,6 @@ LEVEL_TEXT = ('The seat-count adjusters (AllowOverhang, LevelOverhang, LevelOver
               'from divisor.py): house = n + adjustment, termination for unbounded divisors, final totals = proportional distribution '
               'of the enlarged house (exchange argument on C01 optimality + strict separation). Model tied to the code by '
               'differential correspondence; a brute-force oracle over house sizes states the property on the implementation.')
-LEVEL_NOTE = ('Trusted: Lean kernel + standard axioms; translate.py (divisors); the correspondence harness (2-6 parties, house <= 30, '
+LEVEL_NOTE = ('The final-totals clause is claimed for seat holders with votes (zero-vote ties are an artefact of where the run starts). Trusted: Lean kernel + standard axioms; translate.py (divisors); the correspondence harness (2-6 parties, house <= 30, '
               '3 evaluators, 2-3 constituencies); the C01 pool abstraction; the hand model of LargestRemainder(hare). Where the code '
               'departs from the literal property (5 recorded findings) the model follows the code and witness theorems pin the departure.')
